@@ -41,6 +41,8 @@ def corpus_live(tier):
         for k in range(0, 7):
             out.append(live_plan(direction, crash_at=k, write='explicit'))          # durable image = state k
             out.append(live_plan(direction, crash_at=k, write='stop'))              # graceful stop at state k
+            if k in (1, 3):
+                out.append(live_plan(direction, crash_at=k, write='stop', shares_store_fails=True))
             if k >= 1:
                 out.append(live_plan(direction, crash_at=k, write='explicit', write_at=k - 1))   # image one state older
         out.append(live_plan(direction, crash_at=2, write='none'))
@@ -71,6 +73,8 @@ def generate_live(rng, index, tier):
         plan['unreachable'] = True
     if rng.random() < 0.2:
         plan['reboot'] = True
+    if plan['write'] == 'stop' and rng.random() < 0.3:
+        plan['shares_store_fails'] = True
     return plan
 
 
@@ -283,6 +287,13 @@ def _epoch1(world: World, plan):
             await asyncio.sleep(0.01 if state['stopping'] else 0.25)
             if state['stopping']:
                 # graceful process end: stop() writes the cache
+                if plan.get('shares_store_fails'):
+                    # the disk is full for the cache of the shares (another service, stored by the same stop()): stop() fails,
+                    # the transfers are stored all the same
+                    def no_space(*a, **kw):
+                        world.disk.fired['shares_cache_write_failed'] += 1
+                        raise OSError(28, 'No space left on device')
+                    client.shares.cache.write = no_space
                 c = world.call(alice, 'stop', client.stop)
                 await c.task
                 state['image'] = None     # read below from what stop() persisted: the list at that time
